@@ -66,6 +66,10 @@ PROPS = {
         "lean_modules": ["C14"],
         "rule": "5 formats (gob, NumPy .npy, CSV, protobuf, flatbuffers) x 16 element types (accepted and refused ones) x shapes of rank 0-4 (scalars, length-one axes, row / column vectors) x layouts {contiguous, column-major raw, column-major converting, lazily transposed, lazily transposed column-major, non-contiguous slice, stepped slice, contiguous row view, materialised, physically transposed} x masks {none, some, first row only, all, all clear} x value sets {distinct, extremes / NaN / Inf / -0}; one step encodes to a buffer and decodes into a new tensor (encode and decode outcomes reported separately), the decoded tensor and the source are dumped and compared logically (element type, shape, every element, mask by coordinate); the bytes WriteNpy produced are additionally parsed by an independent .npy reader in the harness; random chains of slice / T / Transpose / Clone / Materialize before the round trip, a second round trip on the decoded tensor, and a malformed stream",
     },
+    "C15": {
+        "lean_modules": ["C15"],
+        "rule": "9 masking predicates x 16 element types x soft/hard x prior mask {none, all false, random, all true}, each followed by full dumps and a second predicate in another mode; the same over layouts {contiguous, lazily transposed, physically transposed, row slice, offset slice with gaps, stepped slice, column-major, materialised} and on views of unmasked tensors; special values / ties through boolean terms; every mask over n <= 8 (quick) / 10 (thorough) elements on the vector shape and seeded samples on scalar, row/column-vector, matrix and rank-3 shapes with MaskedCount/NonMaskedCount/MaskedAny/MaskedAll (whole tensor and per axis), the six run and edge finders, NextValid/NextInvalid/NextValidity to exhaustion forward and reverse, Filled; iteration scripts; Filled/FilledInplace x 16 types; chains of T/UT/Transpose/Slice/Materialize/Clone on masked tensors with the logical mask dumped after every step; arithmetic / comparison / unary / Apply on masked operands x option modes x TT/TS/ST x layouts compared at the positions valid in all operands; malformed cases",
+    },
     "C16": {
         "lean_modules": ["C16"],
         "rule": "the programs of the C01, C02, C03, C04, C05 and C13 generators that build a column-major tensor (both constructors: column-major over the raw backing, converting a row-major sequence) + the arithmetic / comparison / min-max / unary matrices with every operand and the reuse / incr destination drawn independently from {column-major raw, column-major converting, lazily transposed column-major, row-major contiguous, lazily transposed, sliced}, at least one operand column-major; results are compared with the specification on logical contents (= the row-major run)",
